@@ -19,6 +19,7 @@ type Clause struct {
 	Src   string // file:line
 	Loop  int
 	Ghost []ghostVar // ensures-local ghost variables (universally quantified)
+	GhostPattern *SX // optional trigger terms: with them the clause is assumed at call sites as a quantified formula
 }
 
 type ghostVar struct{ Name, Sort string }
@@ -58,6 +59,7 @@ type FuncContract struct {
 	FrameOnly bool // verified for its frame only: may panic, callee preconditions are not obligations (callee ensures are assumed only under them)
 	Borrows   []string    // parameters the callee neither retains nor describes in its clauses: objects reachable only through them are not published at the call
 	FreshObjs []writeSpec // objects reachable from the results that the callee allocated (heap, address term over the post-state; -1 = none)
+	PanicValue *Clause    // a claim (over $pv) about the value of any panic that leaves the function
 	SpecArgs  string      // package variable (pkg.Var) whose function.Spec literal gives the callback preconditions
 	Writes    []writeSpec // single objects (heap, address term) the function may write besides its own allocations
 }
@@ -100,7 +102,7 @@ type Contracts struct {
 	Prelude []string // raw SMT text blocks from contract files (//@ smt ...)
 }
 
-var clauseHead = regexp.MustCompile(`^(func|extern|requires|ensures|panics_may|panics|rejects|spec_args|may_panic|modifies|loop|inline|trusted|pure|tags|ghost|let|global|lemma|axiom|fresh|unroll|noverify|calls|expect|smt|havoc_all|publishes|writes|fresh_obj|frame_only|borrows)\b(\[[^\]]*\])?\s*(.*)$`)
+var clauseHead = regexp.MustCompile(`^(func|extern|requires|ensures|panic_value|panics_may|panics|rejects|spec_args|may_panic|modifies|loop|inline|trusted|pure|tags|ghost|let|global|lemma|axiom|fresh|unroll|noverify|calls|expect|smt|havoc_all|publishes|writes|fresh_obj|frame_only|borrows)\b(\[[^\]]*\])?\s*(.*)$`)
 
 func loadContracts(files []string) (*Contracts, error) {
 	cs := &Contracts{Funcs: map[string]*FuncContract{}}
@@ -235,7 +237,7 @@ func (cs *Contracts) loadFile(path string) error {
 				return fmt.Errorf("%s: clause %s outside func", r.src, r.head)
 			}
 			switch r.head {
-			case "requires", "ensures", "panics", "panics_may", "rejects":
+			case "requires", "ensures", "panics", "panics_may", "rejects", "panic_value":
 				lab, rest := splitLabel(r.rest)
 				cl := &Clause{Kind: r.head, Tags: tags, Label: lab, Src: r.src}
 				// ensures-local ghosts: "ghost ((c cty.Value)) :: term"
@@ -245,7 +247,17 @@ func (cs *Contracts) loadFile(path string) error {
 					if i < 0 {
 						return fmt.Errorf("%s: ghost without ::", r.src)
 					}
-					vs, err := parseSX(strings.TrimSpace(rest[:i]))
+					head := strings.TrimSpace(rest[:i])
+					// optional " pattern (t1 t2 ...)" after the ghost list
+					if k := strings.Index(head, " pattern "); k >= 0 {
+						pt, err := parseSX(strings.TrimSpace(head[k+9:]))
+						if err != nil {
+							return fmt.Errorf("%s: %v", r.src, err)
+						}
+						cl.GhostPattern = pt
+						head = strings.TrimSpace(head[:k])
+					}
+					vs, err := parseSX(head)
 					if err != nil {
 						return fmt.Errorf("%s: %v", r.src, err)
 					}
@@ -269,6 +281,8 @@ func (cs *Contracts) loadFile(path string) error {
 					c.Ensures = append(c.Ensures, cl)
 				case "panics":
 					c.Panics = cl
+				case "panic_value":
+					c.PanicValue = cl
 				case "panics_may":
 					c.PanicsMay = cl
 				case "rejects":
